@@ -51,7 +51,8 @@ def make(cls, target, comp, rnd):
     if cls == "float":
         if rnd.random() < 0.3:
             return rnd.choice([1.0, 0.0, -0.0, -1.0])      # equal to True / False / an int, but a float
-        return rnd.choice([0.0, -1.5, 1e300, 2.0 ** -40, float("inf")])
+        return rnd.choice([0.0, -1.5, 1e300, 2.0 ** -40, float("inf"), 0.1 + 0.2, 1.0 / 3.0, 3.141592653589793, 5e-324,
+                           1.7976931348623157e308, 123456789.12345679, -2.2250738585072014e-308])
     if cls == "list":
         return [blob, text, n]
     if cls == "dict":
